@@ -5,6 +5,7 @@ go 1.22.1
 require (
 	github.com/ethereum/go-ethereum v1.14.3
 	github.com/glowlabs-org/gca-backend v0.0.0
+	golang.org/x/tools v0.29.0
 )
 
 require (
@@ -12,6 +13,8 @@ require (
 	github.com/glowlabs-org/threadgroup v0.0.0-20240512114128-232ca7c42d0d // indirect
 	github.com/holiman/uint256 v1.2.4 // indirect
 	golang.org/x/crypto v0.23.0 // indirect
+	golang.org/x/mod v0.22.0 // indirect
+	golang.org/x/sync v0.10.0 // indirect
 )
 
 replace github.com/glowlabs-org/gca-backend => /repo
